@@ -5,7 +5,9 @@ def unsafe_decode(string):
   return gfapy.NumericArray.from_string(string, valid = True)
 
 def decode(string):
-  return gfapy.NumericArray.from_string(string)
+  value = gfapy.NumericArray.from_string(string)
+  validate_encoded(string)
+  return value
 
 def validate_encoded(string):
   if not re.match(r"^(f(,[-+]?[0-9]*\.?[0-9]+([eE][-+]?[0-9]+)?)+|[CSI](,\+?[0-9]+)+|[csi](,[-+]?[0-9]+)+)$", string):
